@@ -53,14 +53,12 @@ func runCase(conv func([]byte, []*goctags.Entry) ([]index.DocumentSection, []*zo
 	}
 	// the real builder: must accept the document with the derived sections
 	add := "ok"
-	b, berr := index.NewShardBuilder(&zoekt.Repository{Name: "r"})
-	if berr != nil {
-		panic(berr)
-	}
+	b := builder()
 	secsCopy := append([]index.DocumentSection(nil), secs...)
 	symsCopy := append([]*zoekt.Symbol(nil), syms...)
 	if err := b.Add(index.Document{Name: "f", Content: content, Symbols: secsCopy, SymbolsMetaData: symsCopy}); err != nil {
 		add = "err"
+		curBuilder = nil // a failed Add may leave the builder half-updated
 	} else {
 		// sort.Sort must not have permuted the (already sorted) sections: metadata stays parallel
 		for i := range secsCopy {
@@ -70,6 +68,25 @@ func runCase(conv func([]byte, []*goctags.Entry) ([]index.DocumentSection, []*zo
 		}
 	}
 	return in, fmt.Sprintf("secs=%s syms=%s add=%s", join(ss), join(ts), add)
+}
+
+var (
+	curBuilder *index.ShardBuilder
+	curUses    int
+)
+
+// builder returns a real ShardBuilder, renewed every 256 documents (allocating one per case is slow: the ASCII
+// posting table alone is 16 MB).
+func builder() *index.ShardBuilder {
+	if curBuilder == nil || curUses >= 256 {
+		b, err := index.NewShardBuilder(&zoekt.Repository{Name: "r"})
+		if err != nil {
+			panic(err)
+		}
+		curBuilder, curUses = b, 0
+	}
+	curUses++
+	return curBuilder
 }
 
 func genCase(r *gen.Rand, malformed bool) ([]byte, []entry) {
@@ -102,7 +119,9 @@ func genCase(r *gen.Rand, malformed bool) ([]byte, []entry) {
 			a := r.Intn(len(ln))
 			z := a + r.Range(0, min(6, len(ln)-a))
 			nm := ln[a:z]
-			for len(nm) > 0 && !utf8.Valid(nm) { // trim to valid UTF-8
+			// 1 in 12: leave the cut where it fell (possibly inside a rune) — outside the property's hypothesis,
+			// used only to tie the model of the builder's rune-boundary check to the real Add
+			for !r.Chance(1, 12) && len(nm) > 0 && !utf8.Valid(nm) { // trim to valid UTF-8
 				if !utf8.RuneStart(nm[0]) || !utf8.FullRune(nm) {
 					nm = nm[1:]
 				} else {
@@ -133,6 +152,9 @@ func main() {
 		class := "placed"
 		if strings.Contains(impl, "secs=- ") {
 			class = "none-placed"
+		}
+		if strings.HasSuffix(impl, "add=err") {
+			class = "rejected-by-add(invalid-utf8-name)"
 		}
 		w.Emit(gen.Case{In: in, Impl: impl, Class: class, Nontrivial: class == "placed" && len(es) >= 2})
 	}
